@@ -72,6 +72,7 @@ def _f(name, bounds, quick=None, thorough=None, **kw):
                 quick=[_c(2)] if quick is None else quick, thorough=[_c(3, _timeout=3600)] if thorough is None else thorough, timeout=900, **kw)
 HARNESSES += [
  _f('sum_axis', 'view::sum(a, axis)'), _f('amax_axis', 'view::amax(a, axis) == largest matching element'),
+ _f('amax_axis_i32', 'view::amax(a, axis) on SIGNED int data (negative extremes)'), _f('amin_axis_i32', 'view::amin(a, axis) on signed data', quick=[], thorough=[_c(2), _c(3, _timeout=3600)]), _f('amax_none_i32', 'view::amax(a) on signed data', quick=[], thorough=[_c(2, _timeout=1800)]),
  _f('cumsum_axis', 'view::cumsum(a, axis); negative axes are the pending finding', quick=[_c(2, **KFA)], thorough=[_c(3, _timeout=3600, **KFA)]),
  _f('trace2', 'view::trace of a 2-d array (a number)'), _f('trace3', 'view::trace of a 3-d array over its first two axes'),
  _f('mean_axis', 'view::mean of a 2-d float array (extents 1..MAXE) over a symbolic axis; data integer-valued in [-8,8]; + and / uninterpreted (LL_UF_FLOAT): decided is which elements '
@@ -109,7 +110,7 @@ OUTSIDE = [
  'view::reduce(subtract, a, 2 axes) and its initial/keepdims form with a SYMBOLIC shape (no verdict in 900 s; decided per constant shape: 293 s / 664 s at (2,2,2)); '
  'symbolic-shape queries at extents 1..3 are thorough-tier only (reduce_subtract single axis: no verdict in 1200 s / 4.1 GB on the loaded machine, 764 s measured idle in DESIGN.md); extents > 3, source dims other than 3 (2 for trace/mean)',
  'compile-time (constant) axes and shapes, other container kinds (see C09); maximum/minimum/bitwise/logical reductions other than amax/amin (same reduce_t code, different functor: C07 leaf checks)',
- 'duplicate axes and out-of-range axes (invalid arguments: C15); signed element types (summing arbitrary ints overflows: a property of the data)',
+ 'duplicate axes and out-of-range axes (invalid arguments: C15); signed element types for sums/products (summing arbitrary ints overflows: a property of the data; amax/amin ARE run on signed data)',
  'products of full 32-bit data (prod / cumprod use 8-bit data)',
 ]
 ASSUMPTIONS = ['fe_mean_axis: IEEE + and / are uninterpreted functions shared by the kernel and the reference (engine/ll2c.py LL_UF_FLOAT)']
